@@ -25,6 +25,9 @@ Definition ob (o : option bool) : bool := match o with Some b => b | None => fal
 Definition isS {A} (o : option A) : bool := match o with Some _ => true | None => false end.
 
 Definition isinstance (W : world) (x : val) (ks : list nat) : bool := existsb (isinst W (type_of x)) ks.
+(* no value can be an instance of a class in a and of a class in b *)
+Definition kdisjoint (W : world) (a b : list nat) : bool :=
+  forallb (fun k => negb (existsb (isinst W k) a && existsb (isinst W k) b)) all_kinds.
 Definition scalar_cmp (x : val) (f : Q -> bool) : bool := match x with VQ _ q _ => f q | _ => false end.
 Definition Zlen (l : list val) : Q := inject_Z (Z.of_nat (List.length l)).
 
